@@ -118,4 +118,49 @@ theorem rne_vs_halfUp (B V h : Nat) (hh : 0 < h) (h1 : B ≤ V) (h2 : V < B + h)
     simp only [this, if_true]
     constructor <;> omega
 
+/-- **Exactness under a margin.** If the exact value `V` is not within the code's shortfall `V − B` of a
+rounding boundary (a half-way point at unit `2h`), the code's truncate-then-half-up equals the
+correctly rounded (nearest-even) result — no tie can occur and the truncation cannot flip the decision. -/
+theorem halfUp_eq_rne_of_margin (B V h : Nat) (hh : 0 < h) (h1 : B ≤ V) (h2 : V < B + h)
+    (hm : V % (2 * h) + (V - B) < h ∨ h + (V - B) < V % (2 * h)) :
+    halfUp B h = rne V (2 * h) := by
+  obtain ⟨q, r, hV, hr⟩ : ∃ q r, V = 2 * h * q + r ∧ r < 2 * h :=
+    ⟨V / (2 * h), V % (2 * h), (Nat.div_add_mod V (2 * h)).symm, Nat.mod_lt _ (by omega)⟩
+  have hmod : V % (2 * h) = r := by rw [hV, Nat.mul_add_mod, Nat.mod_eq_of_lt hr]
+  rw [hmod] at hm
+  obtain ⟨d, hd⟩ : ∃ d, V = B + d := ⟨V - B, by omega⟩
+  have hdB : V - B = d := by omega
+  rw [hdB] at hm
+  have hdh : d < h := by omega
+  have hq2 : 2 * h * q = h * (2 * q) := by ring
+  -- halfUp from an explicit decomposition B = h*t + s, s < h
+  have key : ∀ t s, B = h * t + s → s < h → halfUp B h = (t + t % 2) / 2 := by
+    intro t s hB hs
+    unfold halfUp
+    have : B / h = t := by rw [hB, Nat.mul_add_div hh, Nat.div_eq_of_lt hs]; rfl
+    rw [this]
+  rw [hV, rne_decomp q r (2 * h) hr]
+  rcases hm with hA | hB'
+  · have hlt : 2 * r < 2 * h := by omega
+    simp only [hlt, if_true]
+    rcases Nat.lt_or_ge r d with hrd | hrd
+    · -- the shortfall crosses a multiple of 2h downwards
+      have hq1 : 1 ≤ q := by
+        rcases Nat.eq_zero_or_pos q with h0 | h0
+        · subst h0; simp at hV; omega
+        · exact h0
+      obtain ⟨q', hq'⟩ : ∃ q', q = q' + 1 := ⟨q - 1, by omega⟩
+      subst hq'
+      have e : h * (2 * (q' + 1)) = h * (2 * q' + 1) + h := by ring
+      rw [key (2 * q' + 1) (h + r - d) (by rw [hq2, e] at hV; omega) (by omega)]
+      omega
+    · rw [key (2 * q) (r - d) (by rw [hq2] at hV; omega) (by omega)]
+      omega
+  · have hn1 : ¬ (2 * r < 2 * h) := by omega
+    have hgt : 2 * r > 2 * h := by omega
+    simp only [hn1, if_false, hgt, if_true]
+    have e : h * (2 * q + 1) = h * (2 * q) + h := by ring
+    rw [key (2 * q + 1) (r - d - h) (by rw [hq2] at hV; omega) (by omega)]
+    omega
+
 end Qentem.Round
